@@ -30,7 +30,7 @@ RULE = (
     "distinct by construction; non-trivial = a patch scenario with at least one extra target or a CLI argv with at least "
     "one fakesnow option or one rest token."
 )
-REQUIRED = ["cmp_after_exit", "cmp_inside", "cmp_engine_closed", "cmp_nested", "cmp_reentry", "cmp_cli_argv", "cmp_cli_dbpath",
+REQUIRED = ["cmp_fresh_process", "cmp_after_exit", "cmp_inside", "cmp_engine_closed", "cmp_nested", "cmp_reentry", "cmp_cli_argv", "cmp_cli_dbpath",
             "setup_failures_seen", "body_exceptions_seen"]
 ASSUMPTIONS = [
     "scenarios run inside the worker process; a leaked patch is detected by identity and forcibly undone before the next case",
@@ -70,6 +70,12 @@ def gen_cases(tier: str, seed: int):
                 for repeat in (1, 2):
                     yield {"part": "patch", "targets": list(tl), "exit": exit_mode, "nested": nested, "repeat": repeat,
                            "as_str": len(tl) == 1 and repeat == 2}
+    # the same guarantees in a fresh interpreter each, whose import state is that of a user's process
+    from fsverif.props import c20_fresh
+
+    for scen in c20_fresh.FRESH:
+        for pre in c20_fresh.PRES:
+            yield {"part": "fresh", "scenario": scen, "pre": pre}
     maxlen = 4 if tier == "quick" else 5
     for nopts in range(0, 3):
         for opts in itertools.product(range(len(FSOPTS)), repeat=nopts):
@@ -146,6 +152,10 @@ def _leaks(restore: bool = True) -> list[str]:
 
 
 def run_case(case: dict, env: core.Env) -> None:
+    if case["part"] == "fresh":
+        from fsverif.props import c20_fresh
+
+        return c20_fresh.run_fresh(case, env, TARGETS_DIR, _state["tmp"])
     if case["part"] == "patch":
         _run_patch(case, env)
     else:
